@@ -1,0 +1,28 @@
+//go:build verif
+
+// Contracts for the root package graphsync (property C04: status codes; C12: request ids).
+// Comment-only: read by /verif/bin/gsv, never compiled into the package.
+
+package graphsync
+
+//@ pred isSuccess(c int) := c == 20 || c == 21
+//@ pred isFailure(c int) := c == 30 || c == 31 || c == 32 || c == 33 || c == 34 || c == 35
+
+//@ func ResponseStatusCode.IsSuccess
+//@   modifies nothing
+//@   ensures result == isSuccess(c)
+//@ func ResponseStatusCode.IsFailure
+//@   modifies nothing
+//@   ensures result == isFailure(c)
+//@ func ResponseStatusCode.IsTerminal
+//@   modifies nothing
+//@   ensures result == (isSuccess(c) || isFailure(c))
+//@ -- a failure status always yields an error, and the dedicated error type where one exists
+//@ func ResponseStatusCode.AsError
+//@   modifies nothing
+//@   ensures (result == nil) <==> isSuccess(c)
+//@   ensures c == 31 ==> dyntype(result) == typetag("RequestFailedBusyErr")
+//@   ensures c == 34 ==> dyntype(result) == typetag("RequestFailedContentNotFoundErr")
+//@   ensures c == 33 ==> dyntype(result) == typetag("RequestFailedLegalErr")
+//@   ensures c == 32 ==> dyntype(result) == typetag("RequestFailedUnknownErr")
+//@   ensures c == 35 ==> dyntype(result) == typetag("RequestCancelledErr")
